@@ -1,0 +1,7 @@
+//go:build verif && race
+// +build verif,race
+
+package jsonpath
+
+// verifRace: this binary runs under the Go race detector (see verifAdd).
+const verifRace = true
